@@ -73,6 +73,11 @@ func c19Cases(tier string, seed int64) []core.Case {
 			cases = append(cases, core.Case{ID: fmt.Sprintf("raw-pipelined-flush/n=%d/%d", n, rep), Run: func(ctx *core.Ctx) core.Result {
 				return raceRaw(ctx, n, rep)
 			}})
+			if n <= 8 {
+				cases = append(cases, core.Case{ID: fmt.Sprintf("raw-pipelined-writes/n=%d/%d", n, rep), Run: func(ctx *core.Ctx) core.Result {
+					return raceWrites(ctx, n, rep)
+				}})
+			}
 		}
 	}
 	return cases
@@ -674,4 +679,130 @@ func head(s string, n int) string {
 		l = l[:n]
 	}
 	return strings.Join(l, "\n")
+}
+
+// raceWrites: raw connections to the Unix file server with a small msize, each sending a whole burst of data-carrying
+// requests (Twrite on fids of its own) in one transport write, several receive buffers' worth, and waiting for the
+// replies only afterwards: the payload of every request is read by its worker while the connection's reader is
+// already busy with the bytes behind it.
+func raceWrites(ctx *core.Ctx, n, rep int) core.Result {
+	var res core.Result
+	go9p.VerifSetHook(perturb)
+	root := filepath.Join(ctx.Scratch, fmt.Sprintf("c19w-%d", ctx.Index))
+	_ = os.RemoveAll(root)
+	_ = os.MkdirAll(root, 0o755)
+	defer os.RemoveAll(root)
+	ufs := new(go9p.Ufs)
+	ufs.Dotu = rep%2 == 0
+	ufs.Id = "ufs"
+	ufs.Root = root
+	ufs.Msize = []uint32{1024, 512, 4096}[rep%3]
+	if !ufs.Start(ufs) {
+		res.Inconclusive = "Start failed"
+		return res
+	}
+	msize := ufs.Msize
+	var wg sync.WaitGroup
+	var mu sync.Mutex
+	for cidx := 0; cidx < n; cidx++ {
+		wg.Add(1)
+		go func(cidx int) {
+			defer wg.Done()
+			a, b, err := socketpair()
+			if err != nil {
+				return
+			}
+			ufs.NewConn(b)
+			defer a.Close()
+			ver := "9P2000"
+			if ufs.Dotu {
+				ver = "9P2000.u"
+			}
+			replies := make(chan *wire.Msg, 4096)
+			go func() {
+				var buf []byte
+				tmp := make([]byte, 65536)
+				for {
+					k, err := a.Read(tmp)
+					if k > 0 {
+						buf = append(buf, tmp[:k]...)
+						frames, rest := wire.Split(buf)
+						for _, f := range frames {
+							if m, _, err := wire.Decode(f, ufs.Dotu); err == nil {
+								replies <- m
+							}
+						}
+						buf = append([]byte{}, rest...)
+					}
+					if err != nil {
+						close(replies)
+						return
+					}
+				}
+			}()
+			send := func(ms ...*wire.Msg) {
+				var out []byte
+				for _, m := range ms {
+					out = append(out, wire.Encode(m, ufs.Dotu)...)
+				}
+				_, _ = a.Write(out)
+			}
+			wait := func(k int) bool {
+				deadline := time.After(20 * time.Second)
+				for ; k > 0; k-- {
+					select {
+					case _, ok := <-replies:
+						if !ok {
+							return false
+						}
+					case <-deadline:
+						return false
+					}
+				}
+				return true
+			}
+			tag := uint16(0)
+			next := func() uint16 { tag++; return tag }
+			send(&wire.Msg{Type: wire.Tversion, Tag: wire.NOTAG, Msize: msize, Version: ver})
+			if !wait(1) {
+				return
+			}
+			send(&wire.Msg{Type: wire.Tattach, Tag: next(), Fid: 0, Afid: wire.NOFID, Uname: "root", Nuname: 0})
+			wait(1)
+			const files = 24
+			for i := 0; i < files; i++ {
+				// (one at a time: a request on a fid follows the reply that made the fid)
+				send(&wire.Msg{Type: wire.Twalk, Tag: next(), Fid: 0, Newfid: uint32(10 + i)})
+				wait(1)
+				send(&wire.Msg{Type: wire.Tcreate, Tag: next(), Fid: uint32(10 + i), Name: fmt.Sprintf("c%d-f%d", cidx, i), Perm: 0o644, Mode: 1})
+				wait(1)
+			}
+			L := int(msize) - 24
+			for round := 0; round < 4; round++ {
+				var burst []*wire.Msg
+				for i := 0; i < files; i++ {
+					data := make([]byte, L-round*7)
+					for j := range data {
+						data[j] = byte(i + round)
+					}
+					burst = append(burst, &wire.Msg{Type: wire.Twrite, Tag: next(), Fid: uint32(10 + i), Offset: uint64(round * L), Count: uint32(len(data)), Data: data})
+				}
+				send(burst...)
+				if !wait(len(burst)) {
+					break
+				}
+				mu.Lock()
+				res.Evals += len(burst)
+				mu.Unlock()
+			}
+			for i := 0; i < files; i++ {
+				send(&wire.Msg{Type: wire.Tclunk, Tag: next(), Fid: uint32(10 + i)})
+				wait(1)
+			}
+		}(cidx)
+	}
+	wg.Wait()
+	res.Sig(fmt.Sprintf("raw-pipelined-writes|n=%d|rep=%d", n, rep))
+	res.Sample(map[string]interface{}{"workload": "bursts of Twrites on own fids to Ufs, several receive buffers per burst", "connections": n, "msize": msize})
+	return res
 }
